@@ -1,14 +1,49 @@
 import VivModel.Model.Proto
 import VivModel.Model.Context
-/-! Line-protocol driver for the constraint table (C07): `con <file> <method> <state>`. -/
-open Viv Viv.Proto Viv.Ctx
+import VivModel.Model.Services
+/-! Line-protocol driver for C07: the constraint table (`con`, stateless) and the stateful model of
+`ConstraintMaker` + the handle-creating services (`Viv.Svc`): `begin` resets to the registry that exists once the
+managers are set up.
 
-def step (s : Unit) : List String → Unit × String
+    st <state>                                   ok | bad-state
+    view <id> | stream <id> | producer <name> | modifier <name> | table <id> scalar|keyed
+                                                 ok | refused | dup | err:<class>
+    subview <id> <parent> | value <name> | obj <id>          ok | bad-op
+    add <obj> <name> <method> <bound 0|1> <allow|-> <restrict|->    ok | err:value | err:lifecycle | err:type | err:constraint
+    call <obj> <method> <empty 0|1>              admitted | refused | bad-op
+    pcall <pipeline>                             admitted | refused | nosource | bad-op
+    svc <file> <target>                          admitted | refused
+    create <count>                               admitted | refused        (the simulant creator)
+    con <file> <target> <state>                  admitted | refused | unconstrained -/
+open Viv Viv.Proto Viv.Ctx Viv.Svc
+
+def parseOp : List String → Option Op
+  | ["st", x] => some (.st x)
+  | ["view", id] => some (.view id)
+  | ["subview", id, p] => some (.subview id p)
+  | ["stream", id] => some (.stream id)
+  | ["value", n] => some (.value n)
+  | ["modifier", n] => some (.modifier n)
+  | ["producer", n] => some (.producer n)
+  | ["table", id, "scalar"] => some (.table id false)
+  | ["table", id, "keyed"] => some (.table id true)
+  | ["obj", id] => some (.obj id)
+  | ["add", o, n, m, b, a, r] => (bool? b).map fun b => .add o n m b (strList a) (strList r)
+  | ["call", o, m, e] => (bool? e).map fun e => .call o m e
+  | ["pcall", n] => some (.pcall n)
+  | ["svc", f, t] => some (.svc f t)
+  | ["create", n] => n.toNat?.map fun n => .create n
+  | _ => none
+
+def step (s : S) : List String → S × String
   | ["con", file, method, st] =>
     match permittedAt file method with
     | some ss => (s, if ss.contains st then "admitted" else "refused")
     | none => (s, "unconstrained")
   | ["states"] => (s, showStrs states)
-  | _ => (s, "bad-op")
+  | ts =>
+    match parseOp ts with
+    | some op => exec s op
+    | none => (s, "bad-op")
 
-def main : IO Unit := Proto.run () step
+def main : IO Unit := Proto.run ({} : S) step
